@@ -11,6 +11,21 @@ func steer(name string) ([]sl.Sel, *sl.Op) {
 	return []sl.Sel{{Var: "ARGS_GET", Kind: 1, Key: name}}, &sl.Op{Name: "streq", Arg: "1"}
 }
 
+// steerBody: the rule is steered by an argument the library parses out of the request body.
+func steerBody(name string) ([]sl.Sel, *sl.Op) {
+	return []sl.Sel{{Var: "ARGS_POST", Kind: 1, Key: name}}, &sl.Op{Name: "streq", Arg: "1"}
+}
+
+// BodySteered reports whether rules of the program read arguments of a parsed request body.
+func BodySteered(p *sl.Program) bool {
+	for _, h := range p.Header {
+		if h == "SecRequestBodyAccess On" {
+			return true
+		}
+	}
+	return false
+}
+
 // FlowProgram draws a rule set exercising skip, skipAfter, allow scopes, chains and disruptive actions.
 // Every rule (and chain link) is individually steerable from the request; Steers lists the argument names.
 func FlowProgram(r R, withDisruptive bool) (*sl.Program, []string) {
@@ -19,6 +34,12 @@ func FlowProgram(r R, withDisruptive bool) (*sl.Program, []string) {
 		p.Engine = "DetectionOnly"
 	}
 	var steers []string
+	// half of the programs read part of their steering arguments from a parsed request body: whatever allow, skip
+	// and the engine mode do to rules, the data of the request stays visible to the rules that do run
+	body := Chance(r, 0.5)
+	if body {
+		p.Header = append(p.Header, "SecRequestBodyAccess On")
+	}
 	// a transaction may switch its own engine mode: what allow/deny do follows the mode of the transaction, not
 	// the mode the WAF was configured with
 	if (p.Engine == "DetectionOnly" && Chance(r, 0.6)) || (p.Engine == "On" && Chance(r, 0.12)) {
@@ -41,6 +62,9 @@ func FlowProgram(r R, withDisruptive bool) (*sl.Program, []string) {
 		steers = append(steers, name)
 		rule := &sl.Rule{ID: id, Phase: phase, Severity: -1}
 		rule.Targets, rule.Op = steer(name)
+		if body && phase >= 2 && Chance(r, 0.5) {
+			rule.Targets, rule.Op = steerBody(name)
+		}
 		if Chance(r, 0.15) {
 			// always-matching rule
 			rule.Targets, rule.Op = nil, nil
@@ -54,6 +78,9 @@ func FlowProgram(r R, withDisruptive bool) (*sl.Program, []string) {
 				steers = append(steers, ln)
 				link := &sl.Rule{Phase: phase, Severity: -1}
 				link.Targets, link.Op = steer(ln)
+				if body && phase >= 2 && Chance(r, 0.4) {
+					link.Targets, link.Op = steerBody(ln)
+				}
 				if Chance(r, 0.5) {
 					link.Setvars = []sl.Setvar{{Key: fmt.Sprintf("l%d_%d", id, l), Kind: "+", Val: "1"}}
 				}
